@@ -467,6 +467,11 @@ def writer(plan, scratch, log, second=False):
                     base = Flags.fromString(" ".join(extra)) if extra else None
                     b.p.flags = (f | base) if base is not None else f
                     names[int(b.p.serialNum)] = sorted(_flag_names(b.p.flags))
+                # ... and everything else that carries flags (components mostly carry exactly one)
+                for x in r.iterChildren(deep=True):
+                    f = getattr(x.p, "flags", None)
+                    if f is not None and int(x.p.serialNum) not in names:
+                        names[int(x.p.serialNum)] = sorted(_flag_names(f))
                 r.p.cycle = 0
                 r.p.timeNode = 0
                 db.writeToDB(r, statePointName=f"t{t}")
